@@ -160,7 +160,11 @@ pub fn fault_job(d: &Driver, fault: FaultPlan, in_order_key: bool, workers: usiz
                 let Some((k, e)) = &obs.error else {
                     return Judgement::Violation { key: "mismatch".into(), detail: obs.diff(&exp.obs) };
                 };
-                if *e != db_err_string(key) {
+                // the error must be the injected database error, either as `Database(..)` or in the
+                // form in-order execution reports it when it meets the same transient fault (a
+                // precompile stringifies a facade fault into a fatal `Custom` error)
+                let in_order_form = faulty.get_or_init(|| reference(&case, Some(fault.clone()))).obs.error.as_ref().map(|(_, e)| e.clone());
+                if *e != db_err_string(key) && Some(e) != in_order_form.as_ref() {
                     return Judgement::Violation {
                         key: "wrong-error".into(),
                         detail: format!("transient fault on {}: reported error {e} at {k}", key.label()),
@@ -205,7 +209,13 @@ pub fn jobs(tier: Tier) -> Vec<Job> {
         for w in [1usize, 2] {
             v.push(pipeline_job("c04-pc-fatal", &case, &RunCfg::parallel(w), COARSE, if tier == Tier::Quick { 2 } else { 3 }, true));
         }
-        v.push(pipeline_job("c04-pc-fatal", &case, &RunCfg::parallel(2), FOCUS_ATTEMPT, if tier == Tier::Quick { 4 } else { 5 }, true));
+        // the stale-only fatal error is the F2 window (four deviations); the in-order one needs less
+        let b = match (tier, armed) {
+            (Tier::Quick, true) => 4,
+            (Tier::Quick, false) => 3,
+            (Tier::Thorough, _) => 5,
+        };
+        v.push(pipeline_job("c04-pc-fatal", &case, &RunCfg::parallel(2), FOCUS_ATTEMPT, b, true));
         v.push(pipeline_job("c04-pc-fatal", &case, &RunCfg::sequential(), COARSE, 0, false));
     }
     for d in drivers(spec) {
